@@ -106,9 +106,14 @@ pub fn run_grp() {
                                         // same shape as the base struct: same field sequence up to Option-ness
                                         let base = fields_row(get_struct("G").unwrap(), &lc);
                                         let same = base.len() == fr.len() && base.chunks(3).zip(fr.chunks(3)).all(|(a, b)| a[0] == b[0] && a[1] == b[1]);
-                                        if !same { mm = -2; }
+                                        if !same || reprc(s) != 1 { mm = -2; }
                                     } else {
                                         for ch in fr.chunks(3) { if ch[0] == 1 && ch[1] >= nmand as i64 && ch[2] == 0 { mm |= 1 << (ch[1] - nmand as i64); } }
+                                        // the Final variant: the base struct's field sequence restricted to the mandatory and the requested tables (then the container)
+                                        let base = fields_row(get_struct("G").unwrap(), &lc);
+                                        let want: Vec<(i64, i64)> = base.chunks(3).filter(|c| c[0] != 1 || c[1] < nmand as i64 || (c[1] >= nmand as i64 && mask & (1 << (c[1] - nmand as i64)) != 0)).map(|c| (c[0], c[1])).collect();
+                                        let got: Vec<(i64, i64)> = fr.chunks(3).map(|c| (c[0], c[1])).collect();
+                                        if want != got || reprc(s) != 1 { mm = -2; }
                                     }
                                     nonopt = mm;
                                 }
